@@ -109,6 +109,10 @@ func vfRoutingMicroScripts(property string) []vfMicroScript {
 			// then one more task for the second target: each stream must carry watermarks of its own id space
 			{Name: "broadcast-watermark-asymmetric-targets", Scenario: asym, Setup: []string{"openT:1", "openT:2", "openS:1", "emit:1", "emit:1", "emit:1", "emit:1"},
 				Steps: []string{"wm:1", "emit:1"}},
+			// a target shard that holds nothing reconnects at once after its stream broke (the new sender registers while the
+			// old one is still deregistering); tasks sent after the old incarnation has ended must reach the new one
+			{Name: "idle-target-reconnects-then-tasks", Scenario: base("micro-reconn", 0), Setup: []string{"openT:1", "openT:2", "openS:1"},
+				Steps: []string{"cleanbreakT:2", "openT:2", "awaitT:2", "emit:1", "emit:1"}},
 			// two single-task batches for different targets and the acknowledgement of the second target
 			{Name: "two-targets-one-acks", Scenario: base("micro-ack", 0), Setup: []string{"openT:1", "openT:2", "openS:1"},
 				Steps: []string{"emit:1", "emit:1", "tick:2", "wm:1"}},
@@ -159,6 +163,14 @@ func (e *vfRouteExec) ready(a string) bool {
 		return len(e.src[n-1].incoming) >= 2
 	case "breakSin":
 		return !e.src[n-1].needsOpen()
+	case "awaitT":
+		in := e.tgt[n-1].incoming
+		for i := 0; i+1 < len(in); i++ {
+			if !in[i].returned {
+				return false
+			}
+		}
+		return len(in) >= 2
 	case "openT":
 		c := e.tgt[n-1].cur()
 		return c == nil || c.broken || c.returned
